@@ -195,10 +195,11 @@ def make_sessions(ctx, nses):
             vec = [sum(lev(x, y) for x, y in zip(rows[i], rows[j])) for i in range(n) for j in range(i + 1, n)]
             ev = dict(op="Hier", t=t, single=(method == "single"), raised=False, flat=[], vec=vec)
             try:
-                link, flat = prs.hierarchical_clustering(data, linkage_kws=dict(method=method), cluster_kws=dict(t=t, criterion="distance"))
+                lk = {} if (method == "single" and sid % 3 == 0) else dict(method=method)      # {} = SciPy's default (single linkage)
+                link, flat = prs.hierarchical_clustering(data, linkage_kws=lk, cluster_kws=dict(t=t, criterion="distance"))
                 ev["flat"] = [int(c) for c in flat]
                 # carve-out: exactly SciPy's linkage / clusters of the (spec-checked) distances
-                want_link = hc.linkage(np.array(vec, dtype=float), method=method)
+                want_link = hc.linkage(np.array(vec, dtype=float), **lk)
                 want_flat = hc.fcluster(want_link, t=t, criterion="distance")
                 if not (np.allclose(link, want_link) and list(want_flat) == list(flat)):
                     scipy_bad.append((sid, method, t, rows))
